@@ -18,7 +18,6 @@ Print Assumptions C05_default_filter_equiv.
 Theorem C05_paging_lex : forall before todo vo vo' ds,
   compile_disjs before vo [] todo = (vo', ds) ->
   forall vf ps binds, pfx vo' vf -> bind vf ps = Some binds ->
-    (forall ko n, In ko todo -> snd ko = OVar n -> var_ok vf n) ->
     forall r out kval ct,
       (forall k, scanon (sx_eval binds r out (ref_sx (ok_ref k))) = vcanon (kval k)) ->
       Forall2 (fun (ko : okey * operand) c => operand_value ps (snd ko) = Some c) todo ct ->
@@ -36,7 +35,9 @@ Proof. exact paging_lex_order. Qed.
 Print Assumptions C05_paging_lex_order.
 
 (* (3) T1: for every model, every stored data set, every query and parameters the parser accepts, outside the
-       listed classes: binding the parameters and running the compiled statement gives exactly the direct
+       classes that are still open (1 paging over null keys, 2 raw order key, 3 Boolean default, 6 null variable,
+       7 first $n = 0 — nothing else: skip without first, variables named like literals and quotes in defaults
+       were repaired in /repo and are covered): binding the parameters and running the compiled statement gives exactly the direct
        evaluation of the query (no bound on rows, fields, filters, keys) *)
 Theorem C05_T1_outside_known : forall m rows q ps,
   wf_query m q = true -> params_ok q ps = true -> known_query m rows q ps = [] ->
@@ -89,24 +90,39 @@ Print Assumptions C05_order_raw_key_refuted.
 Example C05_bool_default_refuted : spec_C05 w_K3_bool_default (run_C05 w_K3_bool_default) = false /\ known_C05 w_K3_bool_default = [3].
 Proof. exact w_K3_bool_default_refuted. Qed.
 Print Assumptions C05_bool_default_refuted.
-Example C05_skip_alone_refuted : spec_C05 w_K4_skip_alone (run_C05 w_K4_skip_alone) = false /\ known_C05 w_K4_skip_alone = [4].
-Proof. exact w_K4_skip_alone_refuted. Qed.
-Print Assumptions C05_skip_alone_refuted.
-Example C05_variable_capture_refuted : spec_C05 w_K5_literal (run_C05 w_K5_literal) = false /\ known_C05 w_K5_literal = [5].
-Proof. exact w_K5_literal_refuted. Qed.
-Print Assumptions C05_variable_capture_refuted.
-Example C05_variable_capture_default_refuted : spec_C05 w_K5_default (run_C05 w_K5_default) = false /\ known_C05 w_K5_default = [5].
-Proof. exact w_K5_default_refuted. Qed.
-Print Assumptions C05_variable_capture_default_refuted.
 Example C05_null_variable_refuted : spec_C05 w_K6_eq (run_C05 w_K6_eq) = false /\ known_C05 w_K6_eq = [6].
 Proof. exact w_K6_eq_refuted. Qed.
 Print Assumptions C05_null_variable_refuted.
 Example C05_first_zero_refuted : spec_C05 w_K7_first_zero (run_C05 w_K7_first_zero) = false /\ known_C05 w_K7_first_zero = [7].
 Proof. exact w_K7_first_zero_refuted. Qed.
 Print Assumptions C05_first_zero_refuted.
-Example C05_spliced_default_refuted : spec_C05 w_K8_quote (run_C05 w_K8_quote) = false /\ known_C05 w_K8_quote = [8].
-Proof. exact w_K8_quote_refuted. Qed.
-Print Assumptions C05_spliced_default_refuted.
+(* (6) the classes repaired in /repo (43340e7 skip without first, e64e320 variable named like a literal,
+       936f709 quote in a String default): their former witnesses now satisfy the oracle and lie in no class;
+       the general statement for them is (3), which no longer excludes them *)
+Theorem C05_variable_slot_holds : forall vo n vo' i, add_param vo n false = (vo', i) ->
+  forall vf ps binds v, pfx vo' vf -> bind vf ps = Some binds -> lookup n ps = Some v ->
+  nth (pred i) binds SNull = to_sql v.
+Proof. exact variable_slot_holds. Qed.
+Print Assumptions C05_variable_slot_holds.
+Theorem C05_offset_needs_limit_holds : forall vo q vo' lim off, compile_limit vo q = (vo', lim, off) -> off <> None -> lim <> None.
+Proof. exact offset_needs_limit_holds. Qed.
+Print Assumptions C05_offset_needs_limit_holds.
+Theorem C05_filter_default_bound_holds : forall vo d vo' dx, default_sx vo d = (vo', dx) ->
+  forall vf ps binds r out, pfx vo' vf -> bind vf ps = Some binds -> scanon (sx_eval binds r out dx) = vcanon d.
+Proof. exact filter_default_bound_holds. Qed.
+Print Assumptions C05_filter_default_bound_holds.
+Example C05_skip_alone_holds : spec_C05 w_K4_skip_alone (run_C05 w_K4_skip_alone) = true /\ known_C05 w_K4_skip_alone = [].
+Proof. exact w_K4_skip_alone_holds. Qed.
+Print Assumptions C05_skip_alone_holds.
+Example C05_variable_capture_holds : spec_C05 w_K5_literal (run_C05 w_K5_literal) = true /\ known_C05 w_K5_literal = [].
+Proof. exact w_K5_literal_holds. Qed.
+Print Assumptions C05_variable_capture_holds.
+Example C05_variable_capture_default_holds : spec_C05 w_K5_default (run_C05 w_K5_default) = true /\ known_C05 w_K5_default = [].
+Proof. exact w_K5_default_holds. Qed.
+Print Assumptions C05_variable_capture_default_holds.
+Example C05_spliced_default_holds : spec_C05 w_K8_quote (run_C05 w_K8_quote) = true /\ known_C05 w_K8_quote = [].
+Proof. exact w_K8_quote_holds. Qed.
+Print Assumptions C05_spliced_default_holds.
 
 (* the hypotheses of (3) and (4) are satisfiable: an ordered query over six rows, and paging through it *)
 Example C05_T1_nonvacuous : spec_C05 w_baseline (run_C05 w_baseline) = true /\ known_C05 w_baseline = [] /\ wf_C05 w_baseline = [1; 1].
